@@ -12,6 +12,8 @@ type ringLogger struct {
 	mu    *sync.Mutex
 	lines *[]string
 	pfx   string
+	// OnInfo, if set, sees every info-level message (used to observe which branch the consensus loop took)
+	OnInfo func(msg string)
 }
 
 func newRingLogger(prefix string) *ringLogger {
@@ -31,11 +33,19 @@ func (l *ringLogger) add(level, msg string, others []interface{}) {
 	}
 }
 
-func (l *ringLogger) Debug(msg string, others ...interface{})  {}
-func (l *ringLogger) Info(msg string, others ...interface{})   {}
+func (l *ringLogger) Debug(msg string, others ...interface{}) {}
+func (l *ringLogger) Info(msg string, others ...interface{}) {
+	if l.OnInfo != nil {
+		l.OnInfo(msg)
+	}
+}
 func (l *ringLogger) Debugf(msg string, others ...interface{}) {}
-func (l *ringLogger) Infof(msg string, others ...interface{})  {}
-func (l *ringLogger) Error(msg string, others ...interface{})  { l.add("E", msg, others) }
+func (l *ringLogger) Infof(msg string, others ...interface{}) {
+	if l.OnInfo != nil {
+		l.OnInfo(msg)
+	}
+}
+func (l *ringLogger) Error(msg string, others ...interface{}) { l.add("E", msg, others) }
 func (l *ringLogger) Errorf(msg string, others ...interface{}) {
 	l.add("E", fmt.Sprintf(msg, others...), nil)
 }
